@@ -240,7 +240,7 @@ func c07writelock(c *an.Ctx) {
 			if !uses {
 				return
 			}
-			if strings.Contains(fn.Name(), "Upgrade") || fn.Name() == "newClientV2" || fn.Name() == "SetOutputBuffer" {
+			if strings.Contains(an.BaseName(fn), "Upgrade") || an.BaseName(fn) == "newClientV2" || an.BaseName(fn) == "SetOutputBuffer" {
 				// re-creating the writer: these take the lock themselves (checked by the lock they hold below) or run before
 				// the connection is shared
 			}
@@ -649,7 +649,7 @@ func c17stateless(c *an.Ctx) {
 			case *ssa.Store:
 				if fa, ok := x.Addr.(*ssa.FieldAddr); ok && isClientField(an.FieldOf(fa)) {
 					if _, fresh := an.Strip(fa.X).(*ssa.Alloc); !fresh {
-						bad, pos, where = "store to Client."+an.FieldOf(fa).Name(), x.Pos(), fn
+						bad, pos, where = "store to Client."+an.FName(an.FieldOf(fa)), x.Pos(), fn
 					}
 				}
 			case *ssa.MapUpdate:
@@ -675,7 +675,7 @@ func c17stateless(c *an.Ctx) {
 					if st, ok := r.(*ssa.Store); ok && st.Addr == ssa.Value(x) {
 						continue // reported above
 					}
-					bad, pos, where = "the address of Client."+an.FieldOf(x).Name()+" is used by "+r.String(), x.Pos(), fn
+					bad, pos, where = "the address of Client."+an.FName(an.FieldOf(x))+" is used by "+r.String(), x.Pos(), fn
 				}
 			}
 		})
